@@ -32,7 +32,7 @@ META = {
         "C19.charge.quarter_turn",
         "C19.charge.reversal",
         "C19.charge.uniform_zero",
-        "C19.bergluescher.integer",
+        "C19.bergluescher.integer", "C19.bergluescher.twice_integer_rough",
         "C19.bloch_point.hedgehog",
         "C19.bloch_point.reversed",
         "C19.angle.value",
@@ -291,6 +291,42 @@ def bergluescher_integer(ctx):
               got=qc, expected=-Q * pol, **dict(info, method="continuous"))
     qa = dft.topological_charge(f, method="berg-luescher", absolute=True)
     ctx.check("C19.bergluescher.absolute_ge", qa >= abs(q) - 1e-9, absolute=qa, charge=q, **info)
+    # rough textures: random directions inside a uniform rim two cells wide, every cell
+    # valid.  The lattice charge of this implementation is the mean of the degrees of the
+    # two triangulations of the lattice (each square is covered by its four corner
+    # triangles), and each triangulation of a configuration with a uniform rim is a closed
+    # triangulated surface whose signed solid angles add up to a whole multiple of 4 pi:
+    # twice the charge is a whole number however sharp the texture is (triangles larger
+    # than a hemisphere included).  Random real vectors are never exactly antiparallel.
+    for _ in range(2):
+        n2 = rng.integers(6, 11, 2)
+        cell2 = 10.0 ** rng.uniform(-9, 3) * rng.uniform(0.5, 2.0, 2)
+        pmin2 = rng.uniform(-3, 3, 2) * cell2 * n2
+        a2 = np.zeros((*n2, 3))
+        a2[...] = unit(rng.normal(size=3))
+        a2[2:-2, 2:-2] = unit(rng.normal(size=(n2[0] - 4, n2[1] - 4, 3)))
+        kind2 = "noise"
+        if rng.random() < 0.5:  # a sharp skyrmion-like core instead of noise
+            dd = (centres(pmin2, cell2, n2)
+                  - (pmin2 + cell2 * n2 / 2 + rng.uniform(-0.4, 0.4, 2) * cell2)) / cell2
+            rr = np.hypot(dd[..., 0], dd[..., 1])
+            R2 = rng.uniform(0.8, 2.5)
+            rim = np.ones(tuple(n2), bool)
+            rim[2:-2, 2:-2] = False
+            if np.all(rr[rim] >= R2):  # the disc lies inside the core area
+                th2 = np.where(rr < R2, np.pi * (1 - rr / R2), 0.0)
+                ph2 = np.arctan2(dd[..., 1], dd[..., 0]) * int(rng.choice([1, -1, 2])) \
+                    + rng.uniform(0, 6)
+                a2 = np.stack([np.sin(th2) * np.cos(ph2), np.sin(th2) * np.sin(ph2),
+                               np.cos(th2)], -1) @ rand_rotation_matrix(rng).T
+                kind2 = "sharp"
+        a2 = a2 * 10.0 ** rng.uniform(-3, 3, size=(*n2, 1))
+        f2 = df.Field(mesh2d(pmin2, cell2, n2, gen.pick(rng, [None, ["a", "b"]])), nvdim=3, value=a2)
+        q2 = dft.topological_charge(f2, method="berg-luescher")
+        ctx.check("C19.bergluescher.twice_integer_rough", abs(2 * q2 - round(2 * q2)) <= 1e-9,
+                  got=q2, n=n2, cell=cell2, tool="topological_charge", method="berg-luescher",
+                  texture=kind2, note="twice the lattice charge of a texture with a uniform rim is not a whole number")
+        ctx.event("bl.%s.charge_%s" % (kind2, round(2 * q2) / 2))
     ctx.sig(("bl", Q, pol, masked, dims is None, int(np.floor(np.log10(np.max(cell))))),
             nontrivial=True)
 
